@@ -265,9 +265,18 @@ func solveOnce(ctxText string, o *Oblig, timeoutMs int, sem chan struct{}) {
 		}()
 	}
 	best := ""
+	definite := 0
+	defer func() {
+		if crossCheck && definite == 1 && os.Getenv("GOVC_SINGLE") != "" {
+			fmt.Fprintf(os.Stderr, "single-solver: %s decided only by %s (%.2fs)\n", o.Name, o.Solver, o.Secs)
+		}
+	}()
 	for range solvers {
 		r := <-ch
 		first := strings.TrimSpace(strings.SplitN(strings.TrimSpace(r.out), "\n", 2)[0])
+		if first == "unsat" || first == "sat" {
+			definite++
+		}
 		switch first {
 		case "unsat":
 			if best != "sat" {
